@@ -94,7 +94,7 @@ def gen_c07(plan, tier, rng):
               ["regex", "pred", "min", "max", "not_empty"]]
     if tier == "thorough":
         orders += [list(p) for p in itertools.permutations(["not_empty", "min", "max", "pred"])][1:12]
-    sks = ["", "X", " XY ", "XYZ", "  "]
+    sks = ["", "X", " XY ", "XYZ", "  ", "\u00e9X", "\u00c9\u00e9 "]   # incl. multi-byte characters: byte length != character count
     n = 0
     variants = []
     for vs in orders:
